@@ -6,8 +6,10 @@ package trafficshape
 // This file contains comments only and is compiled only with the build tag `verif`.
 
 // Thin contracts used by the proxy core (package martian). They state no effect on the proxy's state.
+//@ ghost field Conn.gwrapsTLS bool
 //@ func (*Conn).GetWrappedConn
 //@   trusted
+//@   ensures typeis(result, *tls.Conn) == c.gwrapsTLS
 //@ func (*Conn).GetNextActionFromByte
 //@   trusted
 //@   ensures result != nil
@@ -18,4 +20,4 @@ package trafficshape
 //@   trusted
 //@ func (*Listener).GetTrafficShapedConn
 //@   trusted
-//@   ensures result != nil
+//@   ensures result != nil && result.gwrapsTLS == typeis(oc, *tls.Conn)
